@@ -6,6 +6,8 @@ import (
 	"path/filepath"
 	"reflect"
 	"strings"
+	"sync"
+	"time"
 
 	"github.com/vicanso/elton"
 	"github.com/vicanso/elton/middleware"
@@ -291,8 +293,90 @@ func suiteConfig(r *rng, n int) {
 				} else {
 					rt = "differs"
 				}
+				// read - modify - write - read: what is saved is the configuration that was accepted, not the text
+				// the previous read happened to carry along
+				if rt == "same" {
+					if again, err := config.Read(); err == nil && len(again.Caches) > 0 {
+						again.Caches[0].Size += 7
+						want := *again
+						if err := config.Write(again); err != nil {
+							rt = "write-error:rmw"
+						} else if third, err := config.Read(); err != nil {
+							rt = "read-error:rmw"
+						} else {
+							third.YAML, third.Version = "", ""
+							want.YAML, want.Version = "", ""
+							if !reflect.DeepEqual(*third, want) {
+								rt = "differs:read-modify-write"
+							}
+						}
+					}
+				}
 			}
 		}
 		emit("config", itoa(int64(i)), hx(defect), b2s(structOK), enc, "=>", class, probes, rt)
 	}
+	configWatchHistory()
+}
+
+// directed history with the REAL file watcher: two configurations saved in quick succession; what the running
+// instance ends up with (the last configuration its change callback read) is the one saved last — what a fresh
+// start would read
+func configWatchHistory() {
+	var mu sync.Mutex
+	last := -1
+	calls := 0
+	go config.Watch(func() {
+		c, err := config.Read()
+		mu.Lock()
+		defer mu.Unlock()
+		calls++
+		if err == nil && len(c.Caches) > 0 {
+			last = c.Caches[0].Size
+		}
+	})
+	time.Sleep(200 * time.Millisecond) // the watcher is registered
+	mk := func(size int) *config.PikeConfig {
+		return &config.PikeConfig{
+			Caches:    []config.CacheConfig{{Name: "c1", Size: size, HitForPass: "5m"}},
+			Upstreams: []config.UpstreamConfig{{Name: "u1", Servers: []config.UpstreamServerConfig{{Addr: "http://127.0.0.1:1"}}}},
+			Locations: []config.LocationConfig{{Name: "l1", Upstream: "u1"}},
+			Servers:   []config.ServerConfig{{Addr: ":40000", Cache: "c1", Locations: []string{"l1"}}},
+		}
+	}
+	res := "ok"
+	for round := 0; round < 3 && res == "ok"; round++ {
+		first, second := 1000+round*10, 1005+round*10
+		if err := config.Write(mk(first)); err != nil {
+			fmt.Fprintln(os.Stderr, "watch history: write:", err)
+			res = "write-error"
+			break
+		}
+		time.Sleep(150 * time.Millisecond)
+		if err := config.Write(mk(second)); err != nil {
+			res = "write-error"
+			break
+		}
+		deadline := time.Now().Add(4 * time.Second)
+		for {
+			mu.Lock()
+			l, n := last, calls
+			mu.Unlock()
+			if l == second {
+				break
+			}
+			if time.Now().After(deadline) {
+				if n == 0 {
+					res = "no-events" // the file system delivers no change events here: nothing to compare
+				} else {
+					res = fmt.Sprintf("stale:%d", l)
+				}
+				break
+			}
+			time.Sleep(50 * time.Millisecond)
+		}
+		time.Sleep(1200 * time.Millisecond)
+	}
+	emit("config", "watch", res)
+	stat("watch-histories")
 }
